@@ -538,6 +538,7 @@ impl<'a> Explorer<'a> {
                     if l.vios.wants(cfg.tag_single, "single-vs-reference") {
                         let mut j = cfg.to_json();
                         j.put("calls", J::Arr(vec![Call::new(&stream, stream.len() * 4 + 64, true).to_json()]));
+                        j.put("loop", J::Bool(true));
                         j.put("detail", J::obj().set("message", J::s(&msg)).set("stream", J::s(&hex(&stream))));
                         l.vios.add(Violation { prop: cfg.tag_single.to_string(), kind: "single-vs-reference".into(), msg, replay: j });
                     } else {
